@@ -52,15 +52,21 @@ WHAT = {
     "SGE": "signed bounds of intervals that wrap with a stride (_nsplit) are wrong",
     "widen": "widen compares bounds as plain unsigned numbers and ignores the phase of the stride: result omits operands",
     "intersection": "meet with a singleton uses a non-modular stride test; wrapped cases lose common values",
-    "union": "join loses members",
-    "lub": "least_upper_bound loses members",
+    "union": "join loses members, only for closure operands that are not well-formed",
+    "lub": "least_upper_bound loses members, only for closure operands that are not well-formed",
     "lub3": "least_upper_bound of three loses members",
     "widen2": "widen chain omits operands (see widen)",
     "query": "eval/min/max/cardinality/solution disagree with the member set (signed enumeration and signed extrema of "
              "wrapping intervals, solution() via the non-modular intersection)",
-    "sub": "reflected subtraction on a discrete set computes set - x instead of x - set",
-    "not": "bitwise not loses members",
-    "add": "addition loses members",
+    "sub": "subtraction loses members, only for closure operands that are not well-formed (stride exceeds the span)",
+    "not": "bitwise not loses members, only for closure operands that are not well-formed",
+    "add": "addition loses members, only for closure operands that are not well-formed (stride exceeds the span)",
+}
+WHAT_SETS = {
+    "sub": "reflected subtraction on a discrete set (x - set) computes set - x (__rsub__ calls __sub__)",
+    "udiv": "reflected division on a discrete set (x // set) computes set // x (__rfloordiv__ calls __floordiv__)",
+    "mod": "reflected remainder on a discrete set computes set % x; plus the interval-level % defect",
+    "query": "min/max of a discrete set / value set are read from hull bounds that ignore wrapping members",
 }
 
 
@@ -116,6 +122,8 @@ def what_for(pid, ev, clause):
                          "wraps / assumption x+k >= 0 balanced to x >= -k",
                 "bound": "constraint_to_si bound for shape %s cuts off satisfying assignments (bits discarded by "
                          "Extract/Concat/<</& forgotten, or wrapped bound)"}.get(clause, "shape %s") % ev["op"]
+    if ev.get("ctx", "si") != "si" and ev["op"] in WHAT_SETS:
+        return WHAT_SETS[ev["op"]]
     return WHAT.get(ev["op"], "listed failing input") + (" [exception escapes]" if clause == "exc" else "")
 
 
@@ -462,6 +470,8 @@ def propose(path=None):
             elif pid == "C25":
                 what = "constraint_to_si, constraint shape %s: satisfiable constraint reported unsat (wrapped balanced " \
                        "bound / assumption balancing) or bound that cuts off satisfying assignments" % op
+            elif pid == "C23" and base in WHAT_SETS:
+                what = WHAT_SETS[base]
             else:
                 what = WHAT.get(base, "listed failing inputs")
             out.append({"property": pid, "id": fid, "status": "open", "what": what,
